@@ -473,6 +473,17 @@ def _cast_nil(x, arity):
     return llit((), arity) if (x.op == 'llit' and not x.a[0]) else x
 
 
+def _subst(x, name, by):
+    """x with the variable `name` replaced by the expression `by` (scalars and exact rationals)"""
+    if isinstance(x, Frac):
+        return Frac(_subst(x.num, name, by), _subst(x.den, name, by))
+    if not isinstance(x, X) or x.op in ('int', 'bool'):
+        return x
+    if x.op == 'var':
+        return by if x.a[0] == name else x
+    return X(x.op, x.ty, *[_subst(y, name, by) if isinstance(y, (X, Frac)) else y for y in x.a])
+
+
 def _degen(v):
     """an observed arange-derived array stands for its element at the generic index"""
     if isinstance(v, GenArr):
@@ -787,6 +798,7 @@ class Exec:
         self.returns = []          # Return nodes of the translated region, textual order
         self.atoms = {}            # unparse(call) -> value
         self.index_var = None      # the generic index of arange-derived arrays (spec['index_var'])
+        self.mesh_vars = None      # the generic (row, column) indices of np.meshgrid results (spec['mesh_vars'])
         self.call_obs = {}         # label -> values of the arguments of the observed calls
         self.guards = []           # conditions under which the statement being executed raises IndexError
         self.retk = []             # return continuations of the calls being executed "with exits"
@@ -1108,6 +1120,8 @@ class Exec:
                 return base.shape
             if node.attr == 'ndim':
                 return zint(base.ndim)
+            if node.attr == 'size':
+                return functools.reduce(lambda x, y: arith('mul', x, y), base.shape.items) if base.shape.items else zint(1)
         if isinstance(base, Obj) and node.attr in base.attrs:
             return base.attrs[node.attr]
         if isinstance(base, Slice) and node.attr in ('start', 'stop'):
@@ -1165,6 +1179,17 @@ class Exec:
                 and all(k.arg == 'dtype' for k in node.keywords):
             _need(self.ev(node.args[0], env), 'Z', d)
             return GenArr(self.index_var)                # element number k of np.arange(n) is k (for 0 <= k < n)
+        if d in ('np.meshgrid', 'numpy.meshgrid') and self.mesh_vars is not None and len(node.args) == 2 \
+                and all(k.arg == 'indexing' and isinstance(k.value, ast.Constant) and k.value.value in ('ij', 'xy')
+                        for k in node.keywords):
+            A, B = self.ev(node.args[0], env), self.ev(node.args[1], env)
+            if not (isinstance(A, GenArr) and isinstance(B, GenArr) and self.index_var is not None):
+                raise _Unsup('np.meshgrid of something that is not derived from np.arange')
+            ij = any(k.value.value == 'ij' for k in node.keywords)
+            i, j = self.mesh_vars
+            k0 = self.index_var.a[0]
+            # indexing='ij': X[i, j] = A[i], Y[i, j] = B[j];  default 'xy': X[i, j] = A[j], Y[i, j] = B[i]
+            return PyTuple([GenArr(_subst(A.elem, k0, i if ij else j)), GenArr(_subst(B.elem, k0, j if ij else i))])
         target = self.resolve(d)
         if target is not None:
             args = [self.ev(a, env) for a in node.args]
@@ -1771,6 +1796,20 @@ class Exec:
                                                          f'statements than the {len(mode)} the spec describes')
         if mode[k] == 'none':
             return ('none',)
+        if mode[k] == 'subscript':
+            # `return a[..., r0:r1, c0:c1]`: the observed value is the index itself (the slices, without Ellipsis)
+            if not isinstance(s.value, ast.Subscript):
+                raise TranslationRefused(self.spec['name'], f'line {s.lineno}: the returned value is not a subscript')
+            try:
+                base = self.ev(s.value.value, env)
+                idx = self.ev(s.value.slice, env)
+            except _Unsup as e:
+                raise TranslationRefused(self.spec['name'], f'line {s.lineno}: returned subscript: {e}')
+            if not isinstance(base, Arr):
+                raise TranslationRefused(self.spec['name'], f'line {s.lineno}: the subscripted value is not the array')
+            items = idx.items if isinstance(idx, PyTuple) else [idx]
+            items = [it for it in items if it is not ELLIPSIS]
+            return self.leaf_value(PyTuple(items), f'line {s.lineno}: returned subscript')
         return self.observe(env, f'line {s.lineno}: observation at return')
 
     def loop_focus(self, s, env):
@@ -2460,6 +2499,12 @@ def _extra_inputs(spec, namer, inputs, ex=None):
         v = _make_input(Z_K, spec['index_var'], namer, inputs)
         if ex:
             ex.index_var = v
+    if spec.get('mesh_vars'):
+        vs = [_make_input(Z_K, nm, namer, inputs) for nm in spec['mesh_vars']]
+        if ex:
+            ex.mesh_vars = vs
+            if ex.index_var is None:
+                ex.index_var = var('k_arange_', 'Z')     # placeholder: must be substituted by np.meshgrid
 
 
 def translate_one(spec, fdefs, loader=None):
@@ -3040,6 +3085,36 @@ SPECS_C20 += [
              f'  if (q + {gz(d[0])}) + (r + {gz(d[1])}) + (s + {gz(d[2])}) =? 0\n'
              f'  then Ok (res ++ [(q, r, s)], (q + {gz(d[0])}, r + {gz(d[1])}, s + {gz(d[2])})) else Err AssertionErr.'
              for k, d in enumerate([(1, 0, -1), (1, -1, 0), (0, -1, 1), (-1, 0, 1), (-1, 1, 0), (0, 1, -1)])]),
+]
+
+_WIN = dict(file=UTL, func='window', returns=['none', 'none', 'subscript', 'none'])
+_WINFB = ("let '(s0, s1, s2, s3) := slice in if {size} =? 1 then Ok None else "
+          '{asserts}Ok (Some ((s0, s1), (s2, s3)))')
+_WINAS = ('if negb (s1 - s0 =? fst shape) then Err AssertionErr else if negb (s3 - s2 =? snd shape) then '
+          'Err AssertionErr else ')
+SPECS_C20 += [
+    dict(_WIN, name='window_slice', params={'img': ARR(2), 'shape': T(2), 'slice': T(4)},
+         rtype=TRES(TOPT(TT(TSL, TSL))),
+         doc='window(img, shape, slice) for a 2-d img with both shape and slice given: None when img.size == 1 (img is '
+             'returned as is), Err AssertionErr where a size-consistency assert fails, else the two slices of the '
+             'returned view img[..., slice[0]:slice[1], slice[2]:slice[3]]',
+         fallback=_WINFB.format(size='fst img_shape * snd img_shape', asserts=_WINAS)),
+    dict(_WIN, name='window_slice_noshape', params={'img': ARR(2), 'shape': NONE_K, 'slice': T(4)},
+         rtype=TOPT(TT(TSL, TSL)),
+         doc='window(img, None, slice) for a 2-d img: no assert, the two slices of the returned view',
+         fallback="let '(s0, s1, s2, s3) := slice in if fst img_shape * snd img_shape =? 1 then None else "
+                  'Some ((s0, s1), (s2, s3))'),
+    dict(_WIN, name='window_slice_cube', params={'img': ARR(3), 'shape': T(2), 'slice': T(4)},
+         rtype=TRES(TOPT(TT(TSL, TSL))),
+         doc='window(cube, shape, slice) for a 3-d img: the slices apply to the last two axes',
+         fallback="let '(d, n, m) := img_shape in " + _WINFB.format(size='d * n * m', asserts=_WINAS)),
+    dict(name='mesh_origin', file='lentil/helper.py', func='mesh',
+         params={'shape': T(2), 'shift': T(2), 'angle': OPAQUE_K}, rationals=True, mesh_vars=('i', 'j'),
+         observe='(rr, cc)', rtype=TZn(2),
+         doc='helper.mesh(shape, shift, angle) for an integer shift: element (i, j) of the coordinate arrays rr, cc '
+             'before the rotation - np.arange(n) - np.floor(n/2.0) - shift, through np.meshgrid(indexing="ij") - '
+             'for generic indices i, j: the origin convention (index floor(n/2) is coordinate 0)',
+         fallback='(i - fst shape / 2 - fst shift, j - snd shape / 2 - snd shift)'),
 ]
 
 # ---------------------------------------------------------------------- C11: lentil/zernike.py zernike_index
@@ -4202,6 +4277,29 @@ def _int_grid(w0, wl, d):
     return None
 
 
+def _record_linspace(codename, fn, *args, **kw):
+    """run fn and record the positional arguments of the np.linspace calls made directly by the function named
+    `codename` -> (list of argument tuples, locals at its return, result | exception)"""
+    import numpy as np
+    calls, orig = [], np.linspace
+
+    def rec(*a, **k):
+        if sys._getframe(1).f_code.co_name == codename:
+            calls.append(a)
+        return orig(*a, **k)
+    np.linspace = rec
+    try:
+        loc, r = _trace_locals(fn, codename, 'lentil/radiometry.py', *args, **kw)
+    finally:
+        np.linspace = orig
+    return calls, loc, r
+
+
+def _intlike(v):
+    f = float(v)
+    return int(f) if f == int(f) else f
+
+
 def _drv_pad_linspace(mode):
     def drv(L, ends, d, w0, wl):
         import numpy as np
@@ -4209,13 +4307,14 @@ def _drv_pad_linspace(mode):
         if g is None or max(abs(v) for v in ends) > 10 ** 6 or abs(ends[0] - w0) > 400 * d or abs(ends[1] - wl) > 400 * d:
             return SKIP
         sp = L.radiometry.Spectrum(wave=np.array(g, dtype=float), value=np.ones(len(g)))
-        loc, r = _trace_locals(sp.pad, 'pad', 'lentil/radiometry.py', tuple(float(v) for v in ends), mode=mode)
-        if loc is None or 'nright' not in loc:
+        calls, loc, r = _record_linspace('pad', sp.pad, tuple(float(v) for v in ends), mode=mode)
+        if loc is None or 'dwave' not in loc or len(calls) < 2 and not isinstance(r, Exception):
             return SKIP
         if float(loc['dwave']) != d or float(loc['minwave']) != w0 or float(loc['maxwave']) != wl:
             return SKIP
-        e = loc['ends']
-        return ((int(e[0]), w0, int(loc['nleft'])), (wl, int(e[1]), int(loc['nright'])))
+        if len(calls) != 2:
+            return SKIP                # np.linspace itself refused a (negative) count: nothing to compare with
+        return tuple(tuple(_intlike(v) for v in c) for c in calls)
     return drv
 
 
@@ -4227,13 +4326,12 @@ def _drv_common_grid(L, mn, mx, d):
     S = L.radiometry.Spectrum
     s1 = S(wave=np.array(g, dtype=float), value=np.ones(len(g)))
     s2 = S(wave=np.array(g[:2], dtype=float), value=np.ones(2))
-    loc, r = _trace_locals(L.radiometry._interp_common, '_interp_common', 'lentil/radiometry.py', s1, s2, 'min',
-                           'linear', 0)
-    if loc is None or 'num' not in loc or isinstance(r, Exception):
+    calls, loc, r = _record_linspace('_interp_common', L.radiometry._interp_common, s1, s2, 'min', 'linear', 0)
+    if loc is None or 'dwave' not in loc or len(calls) != 1:
         return SKIP
     if float(loc['dwave']) != d:
         return SKIP
-    return (int(loc['minwave']), int(loc['maxwave']), int(loc['num']) + 1)
+    return tuple(_intlike(v) for v in calls[0])
 
 
 DRIVER.update({'pad_linspace': _drv_pad_linspace('constant'), 'pad_linspace_edge': _drv_pad_linspace('edge'),
